@@ -41,29 +41,44 @@ int main(void)
       dvector *a = rd_dvector(), *b = rd_dvector(); matrix *m;
       NewMatrix(&m, a->size, b->size);
       RowColOuterProduct(a, b, m); pr_matrix("m", m);
-      { matrix *m2; NewMatrix(&m2, a->size, b->size);
-        DVectorTrasposedDVectorDotProduct(a, b, m2); pr_matrix("m2", m2); DelMatrix(&m2);
+      reuse_mask = 0;
+      { matrix *k = dup_matrix(m); RowColOuterProduct(a, b, m); RB(0, same_m(m, k)); junk_m(m); RowColOuterProduct(a, b, m); RB(0, same_m(m, k)); DelMatrix(&k); }
+      { matrix *m2, *k; NewMatrix(&m2, a->size, b->size);
+        DVectorTrasposedDVectorDotProduct(a, b, m2); pr_matrix("m2", m2);
+        k = dup_matrix(m2); junk_m(m2); DVectorTrasposedDVectorDotProduct(a, b, m2); RB(1, same_m(m2, k)); DelMatrix(&k); DelMatrix(&m2);
       }
+      pr_long("reuse_bad", reuse_mask);
       DelMatrix(&m); DelDVector(&a); DelDVector(&b);
     }
     else if(!strcmp(op, "unary")){
       matrix *m = rd_matrix(), *t, *c, *nm; dvector *v;
-      NewMatrix(&t, m->col, m->row); MatrixTranspose(m, t); pr_matrix("transpose", t); DelMatrix(&t);
+      reuse_mask = 0;
+      NewMatrix(&t, m->col, m->row); MatrixTranspose(m, t); pr_matrix("transpose", t);
+      { matrix *k = dup_matrix(t); junk_m(t); MatrixTranspose(m, t); RB(0, same_m(t, k)); DelMatrix(&k); } DelMatrix(&t);
       pr_double("trace", MatrixTrace(m));
       pr_double("norm", Matrixnorm(m));
-      NewMatrix(&nm, m->row, m->col); MatrixNorm(m, nm); pr_matrix("normalized", nm); DelMatrix(&nm);
+      NewMatrix(&nm, m->row, m->col); MatrixNorm(m, nm); pr_matrix("normalized", nm);
+      { matrix *k = dup_matrix(nm); junk_m(nm); MatrixNorm(m, nm); RB(1, same_m(nm, k)); DelMatrix(&k); } DelMatrix(&nm);
       if(m->row > 0 && m->col > 0){
         size_t j;
-        initMatrix(&c); MatrixCovariance(m, c); pr_matrix("cov", c); DelMatrix(&c);
-        initDVector(&v); MatrixColAverage(m, v); pr_dvector("colavg", v); DelDVector(&v);
-        initDVector(&v); MatrixColVar(m, v); pr_dvector("colvar", v); DelDVector(&v);
-        initDVector(&v); MatrixColSDEV(m, v); pr_dvector("colsdev", v); DelDVector(&v);
-        initDVector(&v); MatrixColRMS(m, v); pr_dvector("colrms", v); DelDVector(&v);
-        initDVector(&v); MatrixRowAverage(m, v); pr_dvector("rowavg", v); DelDVector(&v);
+        initMatrix(&c); MatrixCovariance(m, c); pr_matrix("cov", c);
+        { matrix *k = dup_matrix(c); junk_m(c); MatrixCovariance(m, c); RB(2, same_m(c, k)); DelMatrix(&k); } DelMatrix(&c);
+        /* the column/row statistics APPEND their values to the vector they are given: a second call leaves what was
+           there and appends the same values again */
+#define APPENDS(bit, CALL) { dvector *k = dup_dvector(v); size_t q_, n_ = k->size; int ok_ = 1; CALL; \
+          if(v->size != 2*n_) ok_ = 0; else for(q_ = 0; q_ < n_; q_++) if(!same_d(v->data[q_], k->data[q_]) || !same_d(v->data[n_+q_], k->data[q_])) ok_ = 0; \
+          RB(bit, ok_); DelDVector(&k); }
+        initDVector(&v); MatrixColAverage(m, v); pr_dvector("colavg", v); APPENDS(3, MatrixColAverage(m, v)) DelDVector(&v);
+        initDVector(&v); MatrixColVar(m, v); pr_dvector("colvar", v); APPENDS(4, MatrixColVar(m, v)) DelDVector(&v);
+        initDVector(&v); MatrixColSDEV(m, v); pr_dvector("colsdev", v); APPENDS(5, MatrixColSDEV(m, v)) DelDVector(&v);
+        initDVector(&v); MatrixColRMS(m, v); pr_dvector("colrms", v); APPENDS(6, MatrixColRMS(m, v)) DelDVector(&v);
+        initDVector(&v); MatrixRowAverage(m, v); pr_dvector("rowavg", v); APPENDS(7, MatrixRowAverage(m, v)) DelDVector(&v);
+#undef APPENDS
         NewMatrix(&t, m->col, 2);
         for(j = 0; j < m->col; j++) MatrixColumnMinMax(m, j, &t->data[j][0], &t->data[j][1]);
         pr_matrix("minmax", t); DelMatrix(&t);
       }
+      pr_long("reuse_bad", reuse_mask);
       DelMatrix(&m);
     }
     else if(!strcmp(op, "sort")){
